@@ -299,7 +299,7 @@ func (x *Exec) checkClosure(sp *spec.FuncSpec, s *closureSite, sig string) {
 	x.prefix = QualName(s.frame.fn)
 	x.sig = sig
 	var exprC, stmtC, jumpC, modC *spec.Clause
-	var reqs, invs []*spec.Clause
+	var reqs, invs, ensC []*spec.Clause
 	for _, c := range sp.Of("closure") {
 		w := strings.Fields(c.Text)
 		if len(w) == 0 {
@@ -314,6 +314,8 @@ func (x *Exec) checkClosure(sp *spec.FuncSpec, s *closureSite, sig string) {
 			jumpC = c
 		case "modifies":
 			modC = c
+		case "ensures":
+			ensC = append(ensC, c)
 		case "requires":
 			reqs = append(reqs, c)
 		case "loop":
@@ -512,6 +514,23 @@ func (x *Exec) checkClosure(sp *spec.FuncSpec, s *closureSite, sig string) {
 			goal = B.Or(gs...)
 		} else {
 			goal = x.sameOutcome(r, specRes, specSt)
+		}
+		// postconditions of the closure: "closure ensures e" over its parameters, results (result,
+		// result0, ...), old(...) = the heap the closure started from, and ghosts
+		for _, ec := range ensC {
+			e, err := spec.ParseExpr(strings.TrimSpace(strings.TrimPrefix(strings.TrimSpace(ec.Text), "ensures")))
+			if err != nil {
+				specErr("%v", err)
+			}
+			nf.over = map[string]Value{}
+			nf.bindResults(nil, r.results)
+			sc, si := nf.cur, nf.curIdx
+			nf.cur, nf.curIdx = nil, 0
+			x.NoObl++
+			g := nf.evalBool(e, r.st, run)
+			x.NoObl--
+			nf.cur, nf.curIdx = sc, si
+			x.oblige("closure-ensures", ec.Text, where, r.st, g)
 		}
 		goal = x.simplifyUnder(r.st.PC, goal)
 		ob := x.oblige("closure", clauseText, where, r.st, goal)
